@@ -9,7 +9,7 @@ CHECKS = {
          "Trusts go/parser to read the emitted expression and the table as written in the property statement; says nothing about chains longer than the bound.",
          "DESIGN.md C08"),
  "C09": ("bounded-exhaustive enumeration of unions x arm selections x arm forms x hosting positions (choice-tree explorer), one fc process per match; accepted programs compiled and run on every constructor value",
-         "Every union with 1..4 (quick) / 1..5 (thorough) cases x every payload mask x every non-empty ordered selection of distinct arms x pattern form per payload arm x with/without default (x 7 hosting positions for n<=3) is given to the fc built from the working tree; accept/reject, absence of output on reject and the named uncovered case must equal a reference set computation. Accepted programs with n<=3 are also compiled and executed on every constructor value (never-reached panic must not fire, the constructor's arm must run).",
+         "Every union with 1..4 (quick) / 1..5 (thorough) cases x every payload mask x every non-empty ordered selection of distinct arms x pattern form per payload arm x with/without default (x 7 hosting positions for n<=3) is given to the fc built from the working tree; accept/reject, absence of output on reject and the named uncovered case must equal a reference set computation. Two-match histories (two matches on the same union in one invocation: two functions, nested, two files; n<=3, all arm subsets) expose state that survives from one exhaustiveness check to the next. Accepted programs with n<=3 are also compiled and executed on every constructor value (never-reached panic must not fire, the constructor's arm must run).",
          "Default-only matches, misplaced default arms, duplicate arms and foreign case names are outside the space. Diagnostic wording is not matched, only the presence of an uncovered case's name.",
          "DESIGN.md C09"),
  "C15": ("bounded-exhaustive enumeration of type expressions (choice-tree explorer over constructors, fuel splits, one redundant parenthesis, leaf rotation) in 5 syntactic positions vs. a reference type printer",
@@ -21,7 +21,7 @@ CHECKS = {
          "gofmt of the installed go1.23.5; unlisted samples/gen_*.go are reported, not judged.",
          "DESIGN.md C04"),
  "C18": ("bounded-exhaustive enumeration of list files x sample contents (choice-tree explorer), one tool process per case, vs. a reference renderer calibrated on the checked-in README",
-         "Every list file with 0..2 (quick) / 0..3 (thorough) entries x name kind x 5 title forms x 5 file contents or a missing file x 5 blank-line patterns x final newline is given to the build_sample_md built from the working tree in a fresh directory; README.md must equal the reference rendering (byte-exact while the reference renderer reproduces the repository's own samples/README.md, structural otherwise); an unreadable file must give a non-zero exit and no README.md.",
+         "Every list file with 0..2 (quick) / 0..3 (thorough) entries x name kind x 5 title forms x 5 file contents or a missing file x 5 blank-line patterns x final newline is given to the build_sample_md built from the working tree in a fresh directory; x 3 states of the directory before the run (no README.md, a short old one, an old one longer than any rendering); README.md must equal the reference rendering (byte-exact while the reference renderer reproduces the repository's own samples/README.md, structural otherwise, nothing after the last section); an unreadable file must give a non-zero exit and leave README.md absent or untouched.",
          "The fixed header is learnt from the checked-in samples/README.md.",
          "DESIGN.md C18"),
  "C13": ("bounded-exhaustive enumeration of inputs (choice-tree explorer, in-process driver linked against the working tree's pkg/slice) vs. an independent recursive cons-list model",
@@ -29,11 +29,11 @@ CHECKS = {
          "Out-of-domain calls are not made; stability of Sort is not required; nil-ness of results is not compared (C10 covers equality of differently produced slices).",
          "DESIGN.md C13"),
  "C14": ("explicit-state breadth-first search over dictionary operation sequences vs. a model map, plus bounded-exhaustive argument enumeration for strings/buf/frt (in-process driver linked against the working tree's pkg/*)",
-         "dict: BFS over Add on 3 keys x 2 values until the state space (27 map contents) is closed, all observers checked twice in every state, plus every non-deduplicated history up to depth 4 (quick) / 6 (thorough) and ToDict of the same pair lists; strings: every argument of length <= 3 / 4 over {a,b,','} x every affix/separator of length <= 2, SplitN counts -1..3, vs. Go's strings with the documented argument order; buf: all write sequences of <= 3 / 4 strings with interleaved reads; frt: Pipe/PipeUnit/IfElse/IfElseUnit/IfOnly with counting thunks, tuple round trips, Sprintf1/2, Printf1/Println (captured), SInterP over every Go basic kind at boundary values.",
+         "dict: BFS over Add on 3 keys x 2 values until the state space (27 map contents) is closed, all observers checked twice in every state, plus every non-deduplicated history up to depth 4 (quick) / 6 (thorough) and ToDict of the same pair lists; strings: every argument of length <= 3 / 4 over {a,b,','} x every affix/separator of length <= 2, SplitN counts -1..3, vs. Go's strings with the documented argument order; buf: all write sequences of <= 3 / 4 strings with interleaved reads; frt: Pipe/PipeUnit/IfElse/IfElseUnit/IfOnly with counting thunks, tuple round trips, Sprintf1/2, Printf1/Println (captured), SInterP over every Go basic kind at boundary values; pkg_all.foi conformance: every function declared in the working tree's pkg/pkg_all.foi is called once from Folang with arguments of the declared types and the result used at the declared type, and the batch must compile against the real Go packages.",
          "Go's strings/fmt are the oracles; the display form for SInterP is %d / %f / the string / %v as the statement says.",
          "DESIGN.md C14"),
  "C12": ("explicit-state breadth-first search over histories of slice-package calls on the real slices (alias-group states, canonicalised; successor = replay + one call)",
-         "States are alias groups of real slice values sharing one backing array (windows read with unsafe, canonicalised by sorted windows + rank pattern of the covered cells); transitions apply every slice-package function to every member, binary functions with every other member or a fresh literal in both positions, Take/Skip with every count; after every transition every live value and every operand must still have the contents it had when produced. Depth 4 (quick) / 6 (thorough, capped at 2e6 states; the cap and the depth completed are reported).",
+         "Roots are literals of length 0..3, slice.New, nil and three literals with repeated elements. States are alias groups of real slice values sharing one backing array (windows read with unsafe, canonicalised by sorted windows + rank pattern of the covered cells); transitions apply every slice-package function to every member, binary functions with every other member or a fresh literal in both positions, Take/Skip with every count; after every transition every live value and every operand must still have the contents it had when produced. Depth 4 (quick) / 6 (thorough, capped at 2e6 states; the cap and the depth completed are reported).",
          "One backing array per state (reduction argument in DESIGN.md C12); element type int; group size capped at 6/7 members (pruned transitions are counted).",
          "DESIGN.md C12"),
  "C10": ("bounded-exhaustive enumeration of types (choice-tree explorer) x complete small value domains x all ordered pairs, executed through transpiled `=`/`<>` functions and frt.OpEqual, vs. equality of canonical value descriptions",
@@ -41,7 +41,7 @@ CHECKS = {
          "Composite types take their component values from the first 2-3 values of the component domains; floats, functions, dictionaries and buffers are not first-order values of the statement.",
          "DESIGN.md C10"),
  "C16": ("deviation-bounded exhaustive mutation of seed programs (choice-tree explorer, every combination of <= d mutation operators), an ill-typed definition grammar and complete enumeration of fault patterns over argument lists; one fc process per case, outcome classification",
-         "For the 40 smallest seeds (quick) / all ~125 seeds (thorough: samples, the programs embedded in fc's tests, boundary seeds) every single mutation - del/dup/swap of every token, 18 insertions at every token boundary, 5 re-indentations of every line, truncation at every byte offset, final newline removed - and (thorough) every pair of mutations on the smallest seeds is given to the fc built from the working tree; 30 ill-typed / self-referential definitions (thorough: all ordered pairs of them); every fault pattern {ok, missing input, input is a directory, destination is a directory, destination is a symlink to /dev/full, syntax error} over argument lists of 1..3 files. Each run must end as `ok` (exit 0, every gen_X.go rewritten and complete) or `rejected` (non-zero, diagnostic, nothing for the offending file, earlier outputs complete); hang, Go runtime fatal error, incomplete or dirty output violate.",
+         "For the 40 smallest seeds (quick) / all ~125 seeds (thorough: samples, the programs embedded in fc's tests, boundary seeds) every single mutation - del/dup/swap of every token, 18 insertions at every token boundary, 5 re-indentations of every line, truncation at every byte offset, final newline removed - and (thorough) every pair of mutations on the smallest seeds is given to the fc built from the working tree; 30 ill-typed / self-referential definitions (thorough: all ordered pairs of them) plus a systematic grammar of 5145 definitions relating nestings of two un-annotated parameters (cyclic types); every fault pattern {ok, missing input, input is a directory, destination is a directory, destination is a symlink to /dev/full, syntax error, destination holds a longer stale output} over argument lists of 1..3 files. Each run must end as `ok` (exit 0, every gen_X.go rewritten and complete) or `rejected` (non-zero, diagnostic, nothing for the offending file, earlier outputs complete); hang, Go runtime fatal error, incomplete or dirty output violate.",
          "Timeout 10 s with a 30 s re-run (normal runs take milliseconds); running as root, so permission faults are replaced by directory / /dev/full destinations.",
          "DESIGN.md C16"),
  "C05": ("deviation-bounded exhaustive exploration of dictionary-enumeration schedules (controlled scheduler in pkg/dict under build tag verif; stateless explorer with strict replay across the process boundary), plus a free-running repeated-run cross-check",
@@ -49,7 +49,7 @@ CHECKS = {
          "Menu completeness for n > 4 is argued, not enumerated; diagnostics text is not judged.",
          "DESIGN.md C05"),
  "C07": ("exhaustive enumeration of definition histories and file cuts (choice-tree explorer over dependency-respecting sequences), one fc process per history, per-definition comparison with the minimal history",
-         "From a pool of 16 definitions (records, generic record and three users at two instantiations, union, `type ... and ...` group, package_info, top-level variable, functions with match temporaries / _.Field lambdas / many type variables, generic function and user) every dependency-respecting sequence of up to 4 (quick) / 5 (thorough) distinct definitions x every cut into at most 2 / 3 files of one invocation x a .foi variant for declaration-only first files is transpiled by the fc built from the working tree; for every definition the text of the Go declarations it owns (go/parser), with _vN numbers dropped, must equal its text in the minimal history, and exactly gen_X.go per X.fo argument (none for .foi) must be written.",
+         "From a pool of 20 definitions (records, generic record and three users at two instantiations, union, `type ... and ...` group, package_info, top-level variables incl. one initialised by a match and one by a lambda, functions with match temporaries / _.Field lambdas / many type variables, generic function and user, binders that reuse top-level names) every dependency-respecting sequence of up to 4 (quick) / 5 (thorough) distinct definitions x every cut into at most 2 / 3 files of one invocation x a .foi variant for declaration-only first files is transpiled by the fc built from the working tree; for every definition the text of the Go declarations it owns (go/parser), with _vN numbers dropped, must equal its text in the minimal history, and exactly gen_X.go per X.fo argument (none for .foi) must be written. A long-history phase puts 60 and 130 renamed copies of one definition kind (type-and groups with forward references, 8-type-variable functions, match temporaries, package_info blocks, generic instantiations) before the whole pool, in one file and in an earlier file: invocation-wide counters, allocators (limit 100) and caches show only there.",
          "Temporaries are compared modulo any numbering (see DESIGN.md C07 for why first-occurrence renumbering would be too strict).",
          "DESIGN.md C07"),
  "C01": ("bounded-exhaustive type-directed enumeration of programs (choice-tree explorer over productions, fuel splits and leaves), each transpiled by fc, compiled with go build and executed; stdout compared with a reference evaluator (strict, left-to-right, lexically scoped big-step semantics)",
@@ -61,19 +61,19 @@ CHECKS = {
          "A reduced .foi (tinyfo cannot read pkg_all.foi); slice literals in argument position are parenthesised, the form tinyfo accepts. The shared partial-application finding is attributed by the defect model.",
          "DESIGN.md C17"),
  "C06": ("deviation-bounded exhaustive exploration of layouts (the printer's layout decisions are the choice points of the explorer) over exhaustively generated programs and the boundary corpus; one fc process per layout; metamorphic oracle (bytes of gen_*.go equal those of the default layout)",
-         "Programs: every term with 1 construct over the full alphabet, every term with 2 constructs over the core (quick) / all (thorough) block-owning constructs, and the hand-kept corpus. Layout points: block indentation +2/+1/+4/+7, arm column +0/+1/+2, 0-2 blank lines and 5 kinds of own-line comments before every statement, arm and definition, 5 kinds of line ends, if on one or several lines, let right-hand side / arm body / lambda body / function body on the same or next line, a break before each |> at 3 columns, 3 ends of file. Every layout with at most 1 deviation (thorough: 2 on the corpus and the 1-construct programs) must give byte-identical output and exit 0. Converse clause: 4 pairs of programs differing only in the block a statement belongs to must each be stable and must differ from each other.",
+         "Programs: 6 sets of type declarations / package_info blocks (fields and cases one per line, blank lines and comments between them, case column), every term with 1 construct over the full alphabet, every term with 2 constructs over the core (quick) / all (thorough) block-owning constructs, and the hand-kept corpus (incl. inner match / string match / if-only as the last thing of an arm body directly before the outer default arm or next arm). Layout points: block indentation +2/+1/+4/+7, arm column +0/+1/+2, 0-2 blank lines and 5 kinds of own-line comments before every statement, arm and definition, 5 kinds of line ends, if on one or several lines, let right-hand side / arm body / lambda body / function body on the same or next line, a break before each |> at 3 columns, 3 ends of file. Every layout with at most 1 deviation (thorough: 2 on the corpus and the 1-construct programs) must give byte-identical output and exit 0. Converse clause: 4 pairs of programs differing only in the block a statement belongs to must each be stable and must differ from each other.",
          "That the default layout means what the abstract program says is C01's job on the same generator. Omitting the final newline, breaking a line after an operator, tokens after a multi-line comment on its last line and tab indentation are not in the layout grammar.",
          "DESIGN.md C06"),
  "C11": ("bounded-exhaustive enumeration of literal bodies x 4 literal forms (choice-tree explorer), each literal transpiled, compiled and printed; compared with a per-form specification function",
-         "Every source body of length <= 2 (quick) / 3 (thorough) over the special alphabet { \\ \" ` { } % $ n t newline x }, every single character of printable ASCII, newline, tab and 3 multi-byte characters embedded as a<c>b raw and escaped, and 1-2 holes of int/string/bool variables between 14 texts (incl. %, %d, %%, \\{, \\}), in each of the forms \"...\", `...`, $\"...\", $`...`; the printed text must equal what the specification function derives from the source body.",
+         "Every source body of length <= 2 (quick) / 3 (thorough) over the special alphabet { \\ \" ` { } % $ n t newline x }, every single character of printable ASCII, newline, tab and 3 multi-byte characters embedded as a<c>b raw and escaped, and 1-2 holes of int/string/bool variables between 17 texts (incl. %, %d, %%, \\{, \\}, \\\\, C:\\\\, \\t), each alone on its line and followed on the same line by + \"Z\" (the token must end where the literal ends), in each of the forms \"...\", `...`, $\"...\", $`...`; the printed text must equal what the specification function derives from the source body.",
          "Bodies the statement does not define are out of domain (counted). The hole values travel as arguments; their own text (a%b{c}) is part of the expectation.",
          "DESIGN.md C11"),
  "C02": ("bounded-exhaustive enumeration of function definitions x every subset of erased parameter annotations (choice-tree explorer and the C01 generator with parameters as leaves); emitted signatures compared with an independent Hindley-Milner inference; the emitted package compiled with go build",
-         "Every function with up to 2 annotated parameters over 9 parameter types, 9 result types and every body with at most 1 construct of the inference alphabet that uses all parameters (thorough: 2 constructs with 1 parameter, 1 construct with up to 3 parameters), each with every subset of its annotations erased. Oracles: the emitted func signature equals the reference principal type (type parameters T0.. by first occurrence in the parameter list then the result, constraint any, types by the reference type printer); variants whose principal type equals the fully annotated one are emitted byte-identically (modulo name and temporaries); every variant compiles. Library signatures are read from the working tree's pkg/pkg_all.foi by an independent reader. A corpus adds 12-type-variable, compose/flip/ApplyL and chained shapes.",
+         "Every function with up to 2 annotated parameters over 9 parameter types, 9 result types and every body with at most 1 construct of the inference alphabet that uses all parameters (thorough: 2 constructs with 1 parameter, 1 construct with up to 3 parameters), each with every subset of its annotations erased. Oracles: the emitted func signature equals the reference principal type (type parameters T0.. by first occurrence in the parameter list then the result, constraint any, types by the reference type printer); variants whose principal type equals the fully annotated one are emitted byte-identically (modulo name and temporaries); every variant compiles. Library signatures are read from the working tree's pkg/pkg_all.foi by an independent reader. A corpus adds 12-type-variable, compose/flip/ApplyL and chained shapes, and a constraint-graph enumeration (3..4 un-annotated parameters x 3 relation statements - slice literals of 2 or 3 parameters, p + n, frt.Fst (p, n), pairs - in every order, 1.1e5 functions) covers the order in which equivalence classes are built, merged and grounded.",
          "Variants outside the documentation's inference promises are skipped and counted by rule (un-annotated match / field-access / string-match targets, && || not operands, arithmetic on undetermined types, types determined only through match arms, function parameters applied more than once, Sort/Distinct on undetermined element types, body-only type variables).",
          "DESIGN.md C02"),
  "C03": ("complete enumeration of declaration shapes and foreign-call shapes (choice-tree explorer), each paired with a Go client / Go implementation generated from the documentation's naming scheme; compiled together with the emitted code and executed",
-         "Records (generic or not, 1..2 / 3 fields over a 12-entry type menu: scalars, []int, 2- and 3-tuples, int->string, ()->int, another record, another union, T, []T), unions (generic or not, 1..2 / 3 cases with a payload from the menu or none), top-level variables of every menu type and functions (0..2 / 3 parameters, unit parameter, unit result, generic), each with a Go client that uses only documented names and types (positional struct literals, explicitly typed field reads, New_U_C functions / package variables, type switch over U_C with .Value, Stringer text, direct calls) plus Folang producers/consumers; package_info signatures (arity 1..3, unit argument, unit result, 0..2 type parameters, package _ or a named package) x number of supplied arguments x 5 call forms against a Go implementation that prints position and value of every argument. stdout must equal the documentation model's prediction.",
+         "Records (generic or not, 1..2 / 3 fields over a 12-entry type menu: scalars, []int, 2- and 3-tuples, int->string, ()->int, another record, another union, T, []T), unions (generic or not, 1..2 / 3 cases with a payload from the menu or none), top-level variables of every menu type and functions (0..2 / 3 parameters, unit parameter, unit result, generic), each with a Go client that uses only documented names and types (positional struct literals, explicitly typed field reads, New_U_C functions / package variables, type switch over U_C with .Value, Stringer text, direct calls) plus Folang producers/consumers; package_info signatures (arity 1..3, unit argument, unit result, 0..2 type parameters plus optionally one that occurs only in the result, package _ or a named package) x number of supplied arguments x 5 call forms against a Go implementation that prints position and value of every argument. stdout must equal the documentation model's prediction.",
          "Foreign calls use literal, position-dependent arguments; external generic types (ext.Box<T>) are covered by C15 only.",
          "DESIGN.md C03"),
 }
